@@ -117,7 +117,46 @@ class C06(Prop):
         ctx.count("pm: the flag changes the verdicts" if ref[False][0] != ref[True][0] else "pm: same verdicts with and without the flag")
         return (True, True, 0)
 
+    SPECIAL_FILES = ["/proc/version", "/proc/filesystems", "/proc/devices", "/proc/cmdline"]   # stable between two reads
+    SPECIAL_CONFIGS = [("list", "mem", False), ("list", "file", True), ("callback", "file", True), ("callback", "mem", False)]
+
+    def gen_special(self, rng):
+        """Files whose reported size is not the size of their content (procfs reports 0): reading them as a file
+        must give the same verdicts as scanning their bytes from a buffer."""
+        import os
+        cands = [p for p in self.SPECIAL_FILES if os.path.exists(p)]
+        if not cands:
+            return self.gen_pm(rng)
+        path = rng.choice(cands)
+        mem = open(path, "rb").read()
+        words = [w for w in mem.split() if 3 <= len(w) <= 12 and w.isalnum()][:40] or [b"zzz"]
+        w1, w2 = rng.choice(words), rng.choice(words)
+        src = ('rule s0 { strings: $a = "%s" condition: $a }\n'
+               'rule s1 { strings: $a = "%s" condition: #a >= 1 and filesize > %d }\n'
+               'rule s2 { condition: filesize == %d }\n'
+               'rule s3 { condition: filesize == 0 }\n'
+               'rule s4 { strings: $a = "%s" condition: $a in (0..filesize) }\n'
+               % (w1.decode(), w2.decode(), len(mem) // 2, len(mem), w2.decode()))
+        return {"kind": "special", "path": path, "mem": mem.hex(), "rules_src": src}
+
+    def term_special(self, ctx, case, out):
+        if not isinstance(out, dict) or "outs" not in out:
+            return (False, False, 0)
+        outs = out["outs"]
+        def matched(o):
+            rules = list(o.get("rules", [])) + [e["rule"] for e in o.get("events", []) if e.get("ev") == "match"]
+            return (o.get("error"), sorted(r["name"] for r in rules if r["matched"]))
+        ref = matched(outs[0])
+        ctx.count("special file compared with its bytes in a buffer")
+        for (api, kind, _), o in zip(self.SPECIAL_CONFIGS, outs):
+            if "panic" in o or matched(o) != ref:
+                ctx.notes.append("%s read as %s/%s reports %s, its bytes in a buffer %s" % (case["path"], api, kind, o.get("panic") or matched(o), ref))
+                return (False, False, 0)
+        return (True, True, 0)
+
     def gen_case(self, rng):
+        if rng.chance(1, 40):
+            return self.gen_special(rng)
         if rng.chance(1, 12):
             return self.gen_pm(rng)
         if rng.chance(1, 5):
@@ -168,6 +207,8 @@ class C06(Prop):
         os.makedirs(wd, exist_ok=True)
         ctx.workdir = wd
         def rules_of(c):
+            if c.get("kind") == "special":
+                return [{"ns": "default", "src": c["rules_src"]}]
             if c.get("kind") == "pm":
                 return [{"ns": "default", "src": c["rules_src"]}]
             if c.get("kind") == "rich":
@@ -175,6 +216,9 @@ class C06(Prop):
                 return c07.harness_rules(c["c07"])
             return ruleset.harness_rules(c["rs"])
         def configs_of(c):
+            if c.get("kind") == "special":
+                return [dict({"params": {}, "api": api, "input_kind": kind}, **({"path": c["path"]} if usep else {}))
+                        for api, kind, usep in self.SPECIAL_CONFIGS]
             if c.get("kind") == "pm":
                 return [{"params": {"process_memory": pm}, "api": api, "input_kind": kind} for pm, api, kind in self.PM_CONFIGS]
             return [c_[1] for c_ in CONFIGS]
@@ -212,6 +256,8 @@ class C06(Prop):
         return (True, True, 0)
 
     def term(self, ctx, case, out):
+        if case.get("kind") == "special":
+            return self.term_special(ctx, case, out)
         if case.get("kind") == "pm":
             return self.term_pm(ctx, case, out)
         if case.get("kind") == "rich":
@@ -243,6 +289,8 @@ class C06(Prop):
         return "C06_case %s %s %s" % (ruleset.g_scanner(rs), ruleset.g_inputs(rs, mem), glist(runs))
 
     def nontrivial(self, case, out):
+        if case.get("kind") == "special":
+            return json.dumps([case["path"], case["rules_src"]])
         if case.get("kind") == "pm":
             return json.dumps([case["asset"], case["rules_src"]])
         if case.get("kind") == "rich":
@@ -256,6 +304,8 @@ class C06(Prop):
             return None
 
     def sample(self, case, out):
+        if case.get("kind") == "special":
+            return {"path": case["path"], "rules": case["rules_src"]}
         if case.get("kind") == "pm":
             return {"asset": case["asset"], "rules": case["rules_src"]}
         if case.get("kind") == "rich":
